@@ -129,7 +129,10 @@ def gen_cfg(ctx, cls, n_lo, n_hi, nsets=None, force_unsorted=False):
 
     def arr(n, c):
         t = np.arange(n)[:, None] / n
-        return g.standard_normal((n, c)) + rng.uniform(-2, 2) * t + rng.uniform(-1, 1)
+        a = g.standard_normal((n, c)) + rng.uniform(-2, 2) * t + rng.uniform(-1, 1)
+        if rng.random() < 0.4:  # a channel with a static offset larger than its fluctuation (DC-coupled sensor)
+            a[:, rng.randrange(c)] += rng.choice([-1, 1]) * rng.choice([3.0, 25.0])
+        return a
 
     if cls == "single":
         return Cfg(cls, fs0, [arr(rng.randint(n_lo, n_hi), rng.randint(2, 5))], layout="single")
